@@ -82,6 +82,28 @@ pub fn run_csr_case(case: &Value, idx: usize, seed: u64, pool: &mut KeyPool, out
 		Outcome::Ok(csr) => {
 			let mut obs = csr_obs(csr.der(), key);
 			obs["paramsUnchanged"] = json!(params == before);
+			// remarks of the strict reader that lie INSIDE attribute values the caller handed in (embedded verbatim, not
+			// written by rcgen) are reported apart: location only, the verdict stays with the specification
+			let caller: Vec<(String, String)> = case["attrs"].as_array().map(|a| a.iter().map(|x| (sval(x, "oid"), sval(x, "values"))).collect()).unwrap_or_default();
+			let seen: Vec<(String, String)> = obs["attrs"].as_array().map(|a| a.iter().map(|x| (sval(x, "oid"), sval(x, "valuesRaw"))).collect()).unwrap_or_default();
+			if let Some(issues) = obs["derStrict"].as_array().cloned() {
+				let (mut own, mut inside) = (Vec::new(), Vec::new());
+				for is in issues {
+					let t = is.as_str().unwrap_or("").to_string();
+					let idx = t.strip_prefix("info.attr").and_then(|r| r.split(|c: char| !c.is_ascii_digit()).next().and_then(|d| d.parse::<usize>().ok()));
+					let in_caller = match idx {
+						Some(i) if t[("info.attr".len() + i.to_string().len())..].starts_with('.') => seen.get(i).map(|s| caller.contains(s)).unwrap_or(false),
+						_ => false,
+					};
+					if in_caller {
+						inside.push(is);
+					} else {
+						own.push(is);
+					}
+				}
+				obs["derStrict"] = Value::Array(own);
+				obs["derStrictInsideCallerValues"] = Value::Array(inside);
+			}
 			out.event("Csr", &case_id, args, "Ok", "", obs);
 		},
 		Outcome::Err(e) => out.event("Csr", &case_id, args, "Err", &e, json!({})),
